@@ -15,7 +15,7 @@ def run_hist(cases, nshards=None):
     def work(sh):
         if not sh:
             return {}
-        raw = run_isolated(os.path.join(BIN, "c06"), [(c["id"], json.dumps({k: c[k] for k in ("id", "backend", "srcs", "events", "times", "inputs")})) for c in sh])
+        raw = run_isolated(os.path.join(BIN, "c06"), [(c["id"], json.dumps({k: c[k] for k in ("id", "backend", "srcs", "events", "times", "inputs", "path") if k in c})) for c in sh])
         res = {i: ((f[0], f[1]) if len(f) >= 2 else (f[0], "-")) for i, f in raw.items()}
         return res
     out = {}
@@ -26,9 +26,10 @@ def run_hist(cases, nshards=None):
 
 def main(ctx, args):
     ctx.assumptions += [
-        "programs: generated stateful programs whose signal state lives in self/mem/delay cells reachable from dsp (globals are immutable, closures stateless)",
+        "programs: generated stateful programs whose signal state lives in self/mem/delay cells reachable from dsp (globals are immutable, closures stateless); a gated family (last cells first touched after K samples); every shipped .mmm source with a dsp that runs on the backend (arrays, variants, closures, macros, library code)",
         "VM swap = VmDspRuntime::try_hot_swap(VmProgram) with a fresh emit_bytecode of the same source; WASM swap = WasmDspRuntime::try_hot_swap with a payload built as mimium-cli builds it (that code is private to the CLI and is replicated in the harness: prewarm + plan); `now` continues",
     ]
+    known = load_known("C06")
     if not extract(ctx):
         ctx.finish()
     proved = prove(ctx, MODULES, drivers=["drv_prog"])
@@ -79,6 +80,32 @@ def main(ctx, args):
                 for n in range(0, N + 1):
                     cases.append(dict(base, id=f"{pid_}|{be}|{n}x1", events=[[n, 0]]))
                 cases.append(dict(base, id=f"{pid_}|{be}|2x2", events=[[max(1, K - 1), 0]] * 2))
+    # third family: every shipped source with a dsp (whatever the language feature: arrays, variants, closures, records,
+    # macros, library functions …). No reference semantics is needed: the swapped run is compared with the uninterrupted
+    # run of the same runtime. Files whose uninterrupted run fails (plugins, missing dsp) drop out below (`base_not_ok`).
+    ncorpus = nclosure = 0
+    if not args.replay:
+        import corpusmut, re
+        files = corpusmut.shipped_files(REPO if os.path.isdir(os.path.join(REPO, "lib")) else "/repo")
+        csplits = [0, 1, 2, N // 2, N - 1] if ctx.tier == "quick" else list(range(0, N + 1))
+        for f in files:
+            src = open(f).read()
+            if "dsp" not in src:
+                continue
+            if re.search(r"\|[^|\n]*\|", re.sub(r"//[^\n]*", "", src)) or "letrec" in src:
+                # a lambda: signal state may live in closure instances (e.g. `let c = makecounter()`), which global
+                # initialisation recreates at a swap — outside the class the property quantifies over (state in
+                # self/mem/delay cells of dsp's own layout)
+                nclosure += 1
+                continue
+            ncorpus += 1
+            pid_ = "file:" + os.path.relpath(f, REPO)
+            for be in ("vm", "wasm"):
+                base = dict(backend=be, srcs=[src], times=N, inputs=[[0.5]] * N, prog_id=pid_, path=f)
+                cases.append(dict(base, id=f"{pid_}|{be}|base", events=[]))
+                for n in csplits:
+                    cases.append(dict(base, id=f"{pid_}|{be}|{n}x1", events=[[n, 0]]))
+                cases.append(dict(base, id=f"{pid_}|{be}|3x2+5", events=[[3, 0], [3, 0], [5, 0]]))
     res = run_hist(cases)
     failures, stats, nontriv, samples = [], collections.Counter(), set(), []
     basel = {}
@@ -101,7 +128,9 @@ def main(ctx, args):
             if bst.split(" ")[0] not in ("compile-error",):
                 pass  # crashes of the uninterrupted run are C03's business
             continue
-        if not st.startswith("ok") or "refused" in st or "compile-error" in st:
+        if c["backend"] == "wasm" and "invalid array ID" in st and any(k.get("id") == "W1" for k in known):
+            stats["known_W1_histories"] += 1      # an array handle kept in a state cell does not survive the WASM engine swap
+        elif not st.startswith("ok") or "refused" in st or "compile-error" in st:
             failures.append((c, f"swap run failed: {st[:200]}", bout, out))
         elif out != bout:
             first = next((i for i, (a, b) in enumerate(zip(out.split(";"), bout.split(";"))) if a != b), -1)
@@ -111,6 +140,8 @@ def main(ctx, args):
                 nontriv.add(hash((c["srcs"][0], c["backend"], str(c["events"]))))
                 if len(samples) < 3 and stats["evaluations"] % 211 == 5:
                     samples.append({"src": c["srcs"][0], "backend": c["backend"], "events": c["events"], "samples": out[:160]})
+    for k in known:
+        ctx.known_finding(f"{k['id']} {k['what']} (histories hit this run: {stats['known_' + k['id'] + '_histories']})")
     if failures:
         failures.sort(key=lambda f: len(f[0]["srcs"][0]))
         c, why, bout, out = failures[0]
@@ -129,5 +160,8 @@ def main(ctx, args):
         "traces_validated_against_impl": stats["evaluations"],
         "failures": len(failures),
         "skipped": {k: v for k, v in stats.items() if k.startswith("base_not_ok") or k.startswith("gated_")},
+        "shipped_sources_with_dsp": ncorpus,
+        "shipped_sources_with_lambdas(not judged: state may live in closure instances)": nclosure,
+        "shipped_sources_judged(both runtimes counted)": len(set(c["prog_id"] + c["backend"] for c in cases if c["prog_id"].startswith("file:") and basel.get((c["prog_id"], c["backend"]), ("?",))[0].startswith("ok"))),
     })
     ctx.finish("proof")
